@@ -80,7 +80,7 @@ type Config struct {
 	Mint     func(p *minttypes.Params)
 	// GenesisMod may rewrite any module's genesis JSON before InitChain.
 	GenesisMod  func(cdc codec.JSONCodec, gs app.GenesisState)
-	StartHeight int64 // height of the first block (default 1)
+	StartHeight int64 // InitChain's InitialHeight; the first block the harness runs is StartHeight+1 (default 1 -> block 2)
 }
 
 type World struct {
@@ -127,7 +127,7 @@ func New(cfg Config) *World {
 		Validators:      []abci.ValidatorUpdate{},
 		ConsensusParams: app.DefaultConsensusParams,
 		AppStateBytes:   w.GenesisJSON,
-		InitialHeight:   1,
+		InitialHeight:   maxI64(1, cfg.StartHeight),
 	})
 	a.Commit()
 	w.storeKeys = map[string]storetypes.StoreKey{}
@@ -135,6 +135,13 @@ func New(cfg Config) *World {
 		w.storeKeys[k.Name()] = k
 	}
 	return w
+}
+
+func maxI64(a, b int64) int64 {
+	if a > b {
+		return a
+	}
+	return b
 }
 
 // NewFromGenesis builds a fresh node from an exported app state (used by C19 at the node level).
